@@ -233,6 +233,58 @@ impl Engine for WireEngine {
                     }
                 }
             },
+            // several messages written to ONE writer (as a client does over its connection), some of them refused;
+            // then the stream is read back frame by frame: a refused message must leave nothing behind
+            ["wseq", items] => {
+                let mut out: Vec<u8> = Vec::new();
+                let mut verdicts: Vec<String> = Vec::new();
+                let mut accepted: Vec<String> = Vec::new();
+                for it in items.split(',') {
+                    let d = if let Some(n) = it.strip_prefix('z') {
+                        match n.parse::<usize>() {
+                            Ok(n) if n <= 17 * 1024 * 1024 => vec![0u8; n],
+                            _ => return "bad-op".into(),
+                        }
+                    } else if let Some(h) = it.strip_prefix('h') {
+                        match unhex(h) {
+                            Some(d) => d,
+                            None => return "bad-op".into(),
+                        }
+                    } else {
+                        return "bad-op".into();
+                    };
+                    verdicts.push(match write_message(&mut out, &d) {
+                        Ok(()) => {
+                            accepted.push(format!("ok {}", hex_or_dash(&d)));
+                            "ok".to_string()
+                        }
+                        Err(e) => format!("err:{}", err_class(&e)),
+                    });
+                }
+                let mut cur = std::io::Cursor::new(&out[..]);
+                let mut frames: Vec<String> = Vec::new();
+                loop {
+                    match read_message(&mut cur) {
+                        Ok(m) => frames.push(format!("ok {}", hex_or_dash(&m))),
+                        Err(e) => {
+                            frames.push(format!("err {}", err_class(&e)));
+                            break;
+                        }
+                    }
+                    if frames.len() > 64 {
+                        frames.push("PROPFAIL endless".into());
+                        break;
+                    }
+                }
+                // the property itself: exactly the accepted messages are received, as sent and in order
+                let received_as_sent = frames.len() == accepted.len() + 1 && frames[..accepted.len()] == accepted[..];
+                format!(
+                    "w={} | {}{}",
+                    verdicts.join(","),
+                    frames.join(" "),
+                    if received_as_sent { "" } else { " PROPFAIL not-received-as-sent" }
+                )
+            }
             _ => "bad-op".into(),
         }
     }
@@ -312,6 +364,20 @@ impl Engine for WireEngine {
         for _ in 0..300 * scale {
             let d = rng.rbytes(0, 64);
             cases.push(Case::new(format!("wframe {}", hex_or_dash(&d)), &["wframe"]));
+        }
+        // (3c) one writer, several messages, a refused (oversized) one among them
+        for i in 0..8 {
+            let mut items: Vec<String> = Vec::new();
+            let n = 2 + rng.below(4) as usize;
+            let refused_at = rng.below(n as u64) as usize;
+            for j in 0..n {
+                if j == refused_at {
+                    items.push(format!("z{}", 16 * 1024 * 1024 + 1 + (i % 3)));
+                } else {
+                    items.push(format!("h{}", hex_or_dash(&rng.rbytes(1, 24))));
+                }
+            }
+            cases.push(Case::new(format!("wseq {}", items.join(",")), &["wseq", "refused-then-next", "nt"]));
         }
         for n in [16 * 1024 * 1024 - 1, 16 * 1024 * 1024, 16 * 1024 * 1024 + 1] {
             cases.push(Case::new(format!("wframezeros {}", n), &["wframe-cap-boundary", "nt"]));
